@@ -65,7 +65,12 @@ def run_case(job):
                "prepop": "o", "nested-prefix": "proj/in/api"}[outmode]
         foreign = {}
         if outmode == "prepop":
-            foreign = {"o/foreign.txt": "keep me\n", "o/notes/keep.rst": "unrelated page\n", "o/a.rst": "stale page that is longer than anything generated " * 40 + "\n"}
+            foreign = {"o/foreign.txt": "keep me\n", "o/notes/keep.rst": "unrelated page\n", "o/a.rst": "stale page that is longer than anything generated " * 40 + "\n",
+                       "o/overview.rst": "hand-written page next to the generated ones\n", "o/conf.py": "# sphinx\n"}
+            if kind == "tree" and len(parents) > 1:
+                # ... and in a directory that mirrors an input sub-directory
+                foreign[f"o/{tree.rel(1)}/usage.rst"] = "hand-written page in a mirrored directory\n"
+                foreign[f"o/{tree.rel(1)}/_static/x.css"] = "css\n"
             box.build(foreign)
         outrel = os.path.relpath(out if os.path.isabs(out) else box.path("work", out), box.root)
         before = box.snapshot()
@@ -167,8 +172,6 @@ def run(ctx):
     jobs = []
     for parents in shapes:
         for a in assignments(len(parents), 1, with_indexfile=True):
-            if not any(f.endswith(".cmake") for f in dirmodel.CONTENT[a[0]]) and len(parents) > 1:
-                continue        # (a lone directory without any CMake file is kept: nothing may be printed for it)
             for n, (outmode, sname) in enumerate(itertools.product(OUTMODES, SETTINGS)):
                 for recursive in ((True, False) if (outmode == "abs" or not quick) else (True,)):
                     jobs.append(("tree", parents, a, recursive, outmode, sname))
